@@ -879,6 +879,19 @@ private:
       {
         try { c.listenerReady->set_value(false); } catch (...) {}
       }
+      if (c.t == CmdType::Connect || c.t == CmdType::Via)
+      {
+        // connect()/connectViaListener() already returned this session id (the
+        // command was pushed before the queue closed) but it will never be
+        // processed: report the close so every id handed out gets one onClose.
+        SessionId sid = (c.t == CmdType::Connect) ? c.c.sid : c.v.sid;
+        decltype(_cbs.onClose) closeCb;
+        { std::lock_guard<std::mutex> g(_cbMutex); closeCb = _cbs.onClose; }
+        if (closeCb)
+        {
+          closeCb(sid, TransportErrorInfo{TransportError::ShuttingDown, "shutdown"});
+        }
+      }
     }
     if (_epollFd >= 0)
     {
